@@ -290,6 +290,23 @@ let eval_av () =
       Printf.sprintf "averr=%d closed=%d next=%d%s" averr closed
         (int_of_nat (outcome_code (thr s2 (nat 2)).ph)) (if garbage_possible then " GARBAGE-POSSIBLE" else "")
 
+
+(* ------------------------------------------------------------------ trlate *)
+(* the extracted monitors of Model/TransportPool.v on the recorded wire journal *)
+let eval_trlate m =
+  let items s = if s = "." || s = "" then [] else String.split_on_char ',' s in
+  let f3 x = match String.split_on_char ':' x with [a; b; c] -> (a, b, c) | _ -> failwith "journal item" in
+  let reqs = List.map (fun x -> let (c, i, k) = f3 x in
+      { jq_conn = nat (hexi c); jq_id = z_of_hex i; jq_call = (if k = "-" then None else Some (nat (hexi k))) })
+      (items (get "req" m)) in
+  let anss = List.map (fun x -> let (c, i, k) = f3 x in
+      { ja_conn = nat (hexi c); ja_id = z_of_hex i; ja_call = nat (hexi k) }) (items (get "ans" m)) in
+  let res = List.map (fun x -> match String.split_on_char ':' x with
+      | [c; g] -> { jr_class = nat (hexi c); jr_got = (if g = "-" || g = "?" then None else Some (nat (hexi g))) }
+      | _ -> failwith "res item") (items (get "res" m)) in
+  let b v = if v then "ok" else "BAD" in
+  Printf.sprintf "deliv=%s ids=%s fail=%s" (b (mon_delivery res anss)) (b (mon_ids reqs)) (b (mon_fail res reqs))
+
 let eval (op : string) (a : string list) : string =
   match op, a with
   | "wr", [own; inflight; head; endk; after] -> eval_wr own inflight head endk after
@@ -302,6 +319,7 @@ let eval (op : string) (a : string list) : string =
     search_tr (hexi (get "T" m)) (parse_journal (get "conns" m)) (parse_journal (get "ans" m))
       (get "env" m) (get "want" m)
   | ("avopen" | "avstale"), _ -> eval_av ()
+  | "trlate", _ -> eval_trlate (kv a)
   | ("muxbig" | "trbig"), _ -> "skip"
   | _ -> "BADCASE"
 
